@@ -314,9 +314,12 @@ func (g *generator) funcMap(
 		"magic":       g.printMagic,
 		"quote":       strconv.Quote,
 		"import": func(importPath string) string {
-			if names := file.Imports[importPath]; len(names) > 0 {
-				// importPath exists in the file already.
-				return names[0]
+			for _, name := range file.Imports[importPath] {
+				// importPath exists in the file already. A blank
+				// import does not bind a name we could use.
+				if name != "_" {
+					return name
+				}
 			}
 			return printImportAlias(importPath, filepath.Base(importPath), addImports, aliases)
 		},
@@ -344,6 +347,10 @@ func (g *generator) typePrinter(f *file, addImports map[string]string, aliases m
 
 				// Using a named import.
 				if imp.Name != nil {
+					if imp.Name.Name == "_" {
+						// A blank import does not bind a name.
+						continue
+					}
 					return imp.Name.Name
 				}
 
